@@ -19,6 +19,7 @@ let table : (string * ((Model.z list -> Model.z list) * (Model.z list -> Model.z
   ("C08", (Model.run_ipam, Model.chk_c08));
   ("C10", (Model.run_pe, Model.chk_c10));
   ("C11", (Model.run_pe, Model.chk_c11));
+  ("C13", (Model.run_dp, Model.chk_c13));
 ]
 
 (* optional diagnostics: which clause of the property failed *)
@@ -34,4 +35,5 @@ let why : (string * (Model.z list -> Model.z list -> Model.z)) list = [
   ("C08", Model.why_ipam (Model.Zpos (Model.XO (Model.XO (Model.XO Model.XH)))));
   ("C10", Model.why_pe (Model.Zpos (Model.XO (Model.XI (Model.XO Model.XH)))));
   ("C11", Model.why_pe (Model.Zpos (Model.XI (Model.XI (Model.XO Model.XH)))));
+  ("C13", Model.why_dp);
 ]
